@@ -207,6 +207,17 @@ fn callee_json<'tcx>(tcx: TyCtxt<'tcx>, env: TypingEnv<'tcx>, did: DefId, args: 
         let sig = tcx.fn_sig(did).instantiate_identity().skip_norm_wip();
         f.push(("unsafe", b(sig.safety().is_unsafe())));
     }
+    if let DefKind::Ctor(..) = tcx.def_kind(did) {
+        let parent = tcx.parent(did);
+        let (adt_did, vidx) = if matches!(tcx.def_kind(parent), DefKind::Variant) {
+            let adt_did = tcx.parent(parent);
+            (adt_did, tcx.adt_def(adt_did).variant_index_with_id(parent).index())
+        } else {
+            (parent, 0)
+        };
+        f.push(("ctor_adt", esc(&dps(tcx, adt_did))));
+        f.push(("ctor_variant", format!("{}", vidx)));
+    }
     if let Some(tr) = tcx.trait_of_assoc(did) {
         f.push(("trait", esc(&dps(tcx, tr))));
         f.push(("has_default", b(tcx.defaultness(did).has_value())));
